@@ -555,6 +555,12 @@ def rule_sudoku(F, R):
                                 and root_var(b_['args'][0]) == unwrap_pat(ct_['params'][1]['pat']).get('var'):
                             src = strip(src['args'][0]); digit_by_payload = True
                         else: continue
+                    if src['k'] == 'Call' and (callee_name(src) or '') in ('core::slice::<impl [T]>::get',) and len(src['args']) == 2 and root_var(src['args'][1]) in loopvar and strip(src['args'][1])['k'] == 'VarRef':
+                        # `let symbols: Vec<char> = text.chars().collect(); symbols.get(i)`: the i-th character, looked up in a listing of them
+                        lst = getattr(cx, 'plain_lets', {}).get(root_var(src['args'][0]))
+                        lst = strip(lst) if lst is not None else None
+                        if lst is not None and lst['k'] == 'Call' and callee_decl(lst) == 'std::iter::Iterator::collect' and str((lst.get('ty') or {}).get('s', '')).startswith('std::vec::Vec<char'):
+                            src = {'k': 'Call', 'callee': {'def': 'std::iter::Iterator::nth', 'res': 'std::iter::Iterator::nth'}, 'args': [lst['args'][0], src['args'][1]], 'loc': src.get('loc'), 'ty': src.get('ty')}
                     if not (src['k'] == 'Call' and callee_decl(src) == 'std::iter::Iterator::nth' and root_var(src['args'][1]) in loopvar and strip(src['args'][1])['k'] == 'VarRef'): continue
                     chs = strip(src['args'][0])
                     while chs['k'] in ('Borrow', 'Deref'): chs = strip(chs['arg'])
